@@ -59,7 +59,7 @@ Cap(w) ==
       [] w = "get" -> "Get" [] w = "post" -> "Post" [] w = "thing" -> "Thing" [] w = "named" -> "Named"
       [] w = "inner" -> "Inner" [] w = "kind" -> "Kind" [] w = "pie" -> "Pie"
       [] w = "first" -> "First" [] w = "second" -> "Second" [] w = "third" -> "Third"
-      [] w = "request" -> "Request" [] w = "reply" -> "Reply"
+      [] w = "request" -> "Request" [] w = "reply" -> "Reply" [] w = "pear" -> "Pear" [] w = "plum" -> "Plum"
 Up(w) ==
     CASE w = "foo" -> "FOO" [] w = "bar" -> "BAR" [] w = "baz" -> "BAZ" [] w = "id" -> "ID" [] w = "url" -> "URL"
       [] w = "a" -> "A" [] w = "b" -> "B" [] w = "c" -> "C" [] w = "x" -> "X"
@@ -70,7 +70,7 @@ Up(w) ==
       [] w = "get" -> "GET" [] w = "post" -> "POST" [] w = "thing" -> "THING" [] w = "named" -> "NAMED"
       [] w = "inner" -> "INNER" [] w = "kind" -> "KIND" [] w = "pie" -> "PIE"
       [] w = "first" -> "FIRST" [] w = "second" -> "SECOND" [] w = "third" -> "THIRD"
-      [] w = "request" -> "REQUEST" [] w = "reply" -> "REPLY"
+      [] w = "request" -> "REQUEST" [] w = "reply" -> "REPLY" [] w = "pear" -> "PEAR" [] w = "plum" -> "PLUM"
 
 RECURSIVE JoinWith(_, _)
 JoinWith(ws, sep) == IF ws = <<>> THEN "" ELSE IF Len(ws) = 1 THEN ws[1] ELSE ws[1] \o sep \o JoinWith(Tail(ws), sep)
@@ -119,7 +119,11 @@ Message(n, fields) == [name |-> n, fields |-> fields]
 Lit(s) == [p |-> FALSE, s |-> s, w |-> <<>>]
 Param(n) == [p |-> TRUE, s |-> n.src, w |-> n.w]
 Import(pkg, form, alias, file) == [pkg |-> pkg, form |-> form, alias |-> alias, file |-> file]
-File(name, imports, decls) == [name |-> name, imports |-> imports, decls |-> decls]
+File(name, imports, decls) == [name |-> name, kind |-> "j5s", imports |-> imports, decls |-> decls]
+\* a hand-written .proto file of the bundle (R "Packages and Imports": "A j5s source can import a proto source, and v/v";
+\* T protobuild/packages_test.go TestImportJ5FromProto / TestImportProtoToJ5Local / TestImportProtoToJ5Other).  Proto files
+\* only occur in base bundles: objects with string / message-reference fields and enums, printed as plain proto3.
+ProtoFile(name, imports, decls) == [name |-> name, kind |-> "proto", imports |-> imports, decls |-> decls]
 Pkg(name, files) == [name |-> name, files |-> files]
 
 ElemType(t) == IF t.k \in {"array", "map"} THEN t.item ELSE t
@@ -168,6 +172,24 @@ Base(b) ==
                                        Pkg(PkgNames[2], << File("a", << Import(PkgNames[1], "pkg", "", ""),
                                                                           Import(PkgNames[1], "alias", AliasOf(PkgNames[1]), "") >>,
                                                                  << ObjectDecl(DeclNames[1][1], <<>>) >>) >>) >>]
+      \* services and topics exist already, so that ONE focus construct reaches every method shape (verb x path pattern x response)
+      \* and every field kind inside request / response / topic messages
+      [] b = "svc" -> [pkgs |-> << Pkg(PkgNames[1], << File("a", <<>>,
+                            << ServiceDecl(DeclNames[1][1], "/" \o ShortOf(PkgNames[1]) \o "/v1", <<>>),
+                               TopicDecl(DeclNames[1][2], "publish", <<Message(MessageName(DeclNames[1][2], 1), <<>>)>>),
+                               TopicDecl(DeclNames[1][3], "reqres", <<Message(Name(<<"request">>, "upper"), <<>>), Message(Name(<<"reply">>, "upper"), <<>>)>>),
+                               TopicDecl(DeclNames[1][4], "upsert", <<Message(MessageName(DeclNames[1][4], 1), <<>>)>>) >>) >>) >>]
+      \* proto <-> j5s: p.proto of package 1 imports a.j5s.proto and uses its Apple (proto -> j5s); file b of package 1 may refer to
+      \* p.proto's Pear / Plum without import (j5s -> proto, same package); package 2 imports "foo/v1/p.proto" by path
+      [] b = "proto" -> [pkgs |-> << Pkg(PkgNames[1], << File("a", <<>>, << ObjectDecl(DeclNames[1][1], <<MinField(1)>>) >>),
+                                                         File("b", <<>>, << ObjectDecl(DeclNames[2][1], <<>>) >>),
+                                                         ProtoFile("p", << Import(PkgNames[1], "j5sfile", "", "a") >>,
+                                                                   << ObjectDecl(Name(<<"pear">>, "upper"),
+                                                                                 << Plain(Name(<<"alpha">>, "camel"), Scalar("string")),
+                                                                                    Plain(Name(<<"gamma">>, "camel"), Ref("object", PkgNames[1], <<DeclNames[1][1].src>>, PkgNames[1], "qual")) >>),
+                                                                      EnumDecl(Name(<<"plum">>, "upper"), <<"FIRST">>, FALSE, "") >>) >>),
+                                     Pkg(PkgNames[2], << File("a", << Import(PkgNames[1], "protofile", "", "p") >>,
+                                                               << ObjectDecl(DeclNames[1][1], <<>>) >>) >>) >>]
       \* file-path import (T: protobuild TestImportProtoToJ5Other, README "Packages and Imports")
       [] b = "twopkgfile" -> [pkgs |-> << Pkg(PkgNames[1], << TargetFile("a", 1) >>),
                                        Pkg(PkgNames[2], << File("a", << Import(PkgNames[1], "file", "", "a") >>,
@@ -201,7 +223,7 @@ IsPrefix(p, q) == Len(p) <= Len(q) /\ SubSeq(q, 1, Len(p)) = p
 
 Idx(s) == 1..Len(s)
 PkgPaths(b) == { <<St("pkgs", p)>> : p \in Idx(b.pkgs) }
-FilePaths(b) == UNION { { <<St("pkgs", p), St("files", f)>> : f \in Idx(b.pkgs[p].files) } : p \in Idx(b.pkgs) }
+FilePaths(b) == UNION { { <<St("pkgs", p), St("files", f)>> : f \in { x \in Idx(b.pkgs[p].files) : b.pkgs[p].files[x].kind = "j5s" } } : p \in Idx(b.pkgs) }
 DeclPaths(b) == UNION { { fp \o <<St("decls", d)>> : d \in Idx(GetNode(b, fp).decls) } : fp \in FilePaths(b) }
 
 \* containers of a field list's inline bodies (one level: fields of a declared message / nested / request ...)
@@ -248,7 +270,7 @@ PkgOfPath(b, path) == b.pkgs[path[1].i]
 FileOfPath(b, path) == b.pkgs[path[1].i].files[path[2].i]
 
 \* all top-level declarations of a package: <<file name, decl>>
-TopDecls(pk) == UNION { { <<pk.files[f].name, pk.files[f].decls[d]>> : d \in Idx(pk.files[f].decls) } : f \in Idx(pk.files) }
+TopDecls(pk) == UNION { { <<pk.files[f].name, pk.files[f].decls[d], pk.files[f].kind>> : d \in Idx(pk.files[f].decls) } : f \in Idx(pk.files) }
 TopNames(pk, kinds) == { fd[2].name.src : fd \in { x \in TopDecls(pk) : x[2].kind \in kinds } }
 
 \* reference forms available in file fl of package index pi towards declarations of kind rk
@@ -257,17 +279,21 @@ TopNames(pk, kinds) == { fd[2].name.src : fd \in { x \in TopDecls(pk) : x[2].kin
 \* Same-package references across files are only generated from a file to a LATER file: two files of one package that
 \* refer to each other are valid j5s but become mutually importing .proto files, on which the real linker recurses until the
 \* stack overflows (found by simulation; reported for C07) - a fatal crash per program is too expensive to keep in the space.
-FilePos(fname) == IF fname = FileNames[1] THEN 1 ELSE 2
+FilePos(fname) == IF fname = FileNames[1] THEN 1 ELSE IF fname = FileNames[2] THEN 2 ELSE 3
+\* the files of the own package that file fname (a proto file) imports
+ImportedBy(pk, fname) == UNION { IF pk.files[f].name = fname /\ pk.files[f].kind = "proto"
+                                 THEN { pk.files[f].imports[i].file : i \in Idx(pk.files[f].imports) } ELSE {} : f \in Idx(pk.files) }
 RefTargets(b, pi, fl, rk) ==
     LET self == b.pkgs[pi]
         kinds == {rk}
-        reach == { fd[2].name.src : fd \in { x \in TopDecls(self) : x[2].kind \in kinds /\ FilePos(x[1]) >= FilePos(fl.name) } }
+        reach == { fd[2].name.src : fd \in { x \in TopDecls(self) : x[2].kind \in kinds /\ FilePos(x[1]) >= FilePos(fl.name)
+                                                                      /\ fl.name \notin ImportedBy(self, x[1]) } }
         local == { Ref(rk, self.name, <<n>>, q, fm) : n \in reach, q \in {"", self.name}, fm \in {"qual", "block"} }
         imported == UNION { LET im == fl.imports[i]
                                 tp == CHOOSE p \in { b.pkgs[j] : j \in Idx(b.pkgs) } : p.name = im.pkg
                                 quals == CASE im.form = "pkg" -> {ShortOf(im.pkg), im.pkg}
                                            [] im.form = "alias" -> {im.alias}
-                                           [] im.form = "file" -> {im.pkg}
+                                           [] im.form \in {"file", "protofile"} -> {im.pkg}
                             IN { Ref(rk, im.pkg, <<n>>, q, "qual") : n \in TopNames(tp, kinds), q \in quals }
                           : i \in Idx(fl.imports) }
     IN local \cup imported
@@ -341,7 +367,15 @@ FieldChoices(b, c, n) ==
                        \* the default enum prefix is ScreamingSnake of the derived type NAME ("ABC"), whose word boundaries are
                        \* not recoverable for single-letter words: that combination is left out (casing is ambiguous there)
                        \ { <<Name(<<"a", "b", "c">>, "snake"), <<InlineEnum(NoName, <<"FIRST">>), "inline-enum">>>> } }
-    IN {[e |-> MinField(n + 1), rich |-> 0, label |-> ""]} \cup scal \cup inl \cup refs \cup names
+        \* R "Inline Types": "The inline type by default will take the name of the field" - also when the field is named like its
+        \* parent (object Apple { field apple object {...} }); the real linker rejects the relative type name Apple.Apple (C07)
+        selfname == IF ~full THEN {} ELSE
+                    {[e |-> Plain(Name(GetNode(b, c.path).name.w, "camel"), InlineObject(NoName, <<MinField(1)>>)), rich |-> 1,
+                      label |-> "name-same-as-parent/inline-object"]}
+        \* multi-package bundles exist for the reference forms: only references (and minimal fields) are added there when Focused
+        refsOnly == Focused /\ Len(b.pkgs) > 1
+    IN {[e |-> MinField(n + 1), rich |-> 0, label |-> ""]} \cup refs
+       \cup (IF refsOnly THEN {} ELSE scal \cup inl \cup names \cup selfname)
 
 \* R "Oneof": options are objects, inline or by reference
 OptionChoices(b, c, n) ==
